@@ -51,9 +51,12 @@ MANIFEST_META = {
              'branches (crop origin - paste position = crop coordinate), bbox_position_in_image clips exactly and truncates '
              'offsets by < 1 px, InfoQuery.coord is the affine pre-image of the clicked pixel (y flipped) with round-trip lemma, '
              'and the feature-info transfer for unsupported SRS reprojects exactly the ground point of the clicked pixel '
-             '(request width AND height).',
+             '(request width AND height); ImageTransformer._transform_simple takes exactly the affine image of the requested bbox '
+             'out of the source image (EXTENT quad; crop shortcut only if x AND y resolution match the source, rounded to whole '
+             'pixels, output size wide); WMSSource._get_transformed reprojects back exactly the (srs, bbox) it asked upstream.',
         note='resampling and reprojection error budgets (transform_meshes, PIL, proj), axis-order switching, _query_req and the '
-             'ImageTransformer dispatch are not yet under contract; floats as reals; end-to-end WSGI pixels are outside'),
+             'ImageTransformer dispatch (_no_transformation_needed) are not yet under contract; floats as reals; end-to-end WSGI '
+             'pixels are outside'),
     'C18': dict(
         text='Narrow slice, proved on the real code: in XML/OWS exception handlers the template variable `exception` is exactly '
              'html.escape(request_error.msg) and the response body is the rendered template; PlainExceptionHandler (raw message) '
@@ -82,25 +85,35 @@ MANIFEST_META = {
              'arithmetic), index read/update decode-encode, the bundle file name is cache_dir/L<z>/R<row>C<col> and is '
              'injective (string lemma, cvc5); bulk store/load hand the whole list to one bundle only if all concerned tiles '
              'live in that bundle file (set-cardinality invariant); file cache: a linked single-colour store removes whatever '
-             'exists at the address first; v1 bulk load does not stop at a missing slot.',
-        note='the file-object model (read-over-write, disjoint frames, struct little-endian) is a trusted stub; sqlite / '
-             'geopackage backends (suspects S1, S2), the path layouts (tc/mp/tms/quadkey/arcgis) and compact v1 records are '
-             'not yet under contract; redis/s3/azure/couchdb are outside'),
+             'exists at the address first; compact v1: 5-byte index cells are disjoint, tile_offset/update/remove read and write '
+             'exactly the cell of the slot and leave every other cell alone, append_tile puts <size><bytes> at the old end of the '
+             'data file and touches nothing above the 60-byte header, BundleV1.store/load/remove/is_cached use the slot '
+             '(x % 128, y % 128) of the address and nothing else; file-cache layouts tc/mp/tms/reverse_tms/arcgis: the path is '
+             'exactly the documented formula of (dimension sub-path, level, column, row) and the formula is injective '
+             '(digit-group and path-segment lemmas + A-fmt).',
+        note='the file-object model (read-over-write, disjoint frames, struct little-endian) is a trusted stub; the composed '
+             'statement "equal paths => equal addresses" is assembled from proved lemmas by hand (the single SMT query stays '
+             'unknown); quadkey layout only bounded (C09); sqlite / geopackage backends (suspects S1, S2) are not yet under '
+             'contract; redis/s3/azure/couchdb are outside'),
     'C06': dict(
         text='Proof of crash conditions in the file model: after EVERY write inside compact v2 _store_tile (including a torn '
              'payload write of any length) every slot is either unchanged (entry, record bytes, size field, in-file) or - the '
              'target only - the complete new record; write_atomic creates an exclusive sibling temp file, writes the whole '
              'payload to that handle, closes it and only then renames it over the target, and on failure never replaces or '
              'removes the target; FileCache._store reaches the location only through write_atomic and unlinks nothing but a '
-             'symlink at that location.',
-        note='crash model = process death; writes of <= 8 bytes are atomic (index entry); durability/fsync, NFS, sqlite '
-             'journaling, legend cache and seed progress file are outside; compact v1 ordering not yet under contract'),
+             'symlink at that location; compact v1: at every write of append_tile all existing records are untouched, the new '
+             'record has left the process write buffer (seek/flush) before append_tile returns, and BundleV1.store_tiles '
+             'publishes the index entry only afterwards, with the offset append_tile returned.',
+        note='crash model = process death; writes of <= 8 bytes are atomic (index entry); OS-level durability/fsync, NFS, '
+             'sqlite journaling, legend cache and seed progress file are outside; the v1 cross-file argument (index vs data '
+             'file) is a composition of the two contracts, not one mechanised obligation'),
     'C19': dict(
         text='Proof that the v2 representation invariant (every index entry empty or pointing at a complete in-file record above '
              'the index whose size field matches) is preserved by _store_tile and index updates, hence after any history '
              '(induction over operations); defragmentation copies, for each of the 128 rows, all 128 addresses (0..127, y) from '
              'the old bundle and stores those found into the new one; v1 bulk load visits every tile (no early return).',
-        note='file model trusted; v1 index/data files, size() accounting, the rename/swap step and glob are outside; '
+        note='file model trusted; v1 index/data functions are under contract (C05) but the v1 invariant is not stated as one '
+             'predicate; size() accounting, the rename/swap step and glob are outside; '
              'the defrag loop invariant is per-row (rows < y copied) with the swap assumed'),
     'C12': dict(
         text='Proof on the real cleanup code (every iteration of the walks, all inputs): cleanup_directory hands a file to the '
@@ -108,9 +121,13 @@ MANIFEST_META = {
              'followed), with the walked path; simple_cleanup / cache_cleanup pass each selected level with exactly '
              'task.remove_timestamp and task.remove_all (nothing in dry-run); the tile-walk strategy inherits the walker '
              'obligations of C11 (recursion only into intersecting sub tiles with the right all_subtiles flag) and '
-             'is_stale <=> exists and not fresh (C13).',
-        note='level-directory/tile-path consistency of the layouts (suspect S4: tms), SQL deletes of the sqlite backends, '
-             'real file-system time stamps and shutil.rmtree are outside; strategy choice in cleanup() not yet under contract'),
+             'is_stale <=> exists and not fresh (C13); for the layouts tc, mp, tms and arcgis the level directory handed out by '
+             'location_funcs(layout) is a path prefix of every tile location of that level (so the level-wise cleanup looks '
+             'where the tiles are).',
+        note='defect S4 (tms level directory) was found by this obligation and repaired in /repo 73f95f4; SQL deletes of the '
+             'sqlite backends, real file-system time stamps and shutil.rmtree are outside; strategy choice in cleanup() not '
+             'yet under contract; the dimension sub-path is assumed free of leading/trailing "/" (bounded check of '
+             'dimensions_part)'),
     'C11': dict(
         text='Proof on the real seeder code: SeedProgress.can_skip is exactly "current is behind old" for progress paths of '
              'any length (first differing position decides, a prefix or the path itself is never skipped); limit_sub_bbox is '
@@ -140,10 +157,16 @@ MANIFEST_META = {
              'TileLayer.render/get_info answer empty without touching the tile manager when the limit neither contains nor '
              'intersects the FULL tile rectangle, and mask the image with exactly that coverage and rectangle when it '
              'crosses; LayerMerger.merge never skips a request-wide limited_to (shortcut guard) and masks the composed '
-             'result with it.',
-        note='pixel clipping (image.mask, shapely, PIL) and reprojection of the limiting geometry are outside; WMS '
-             'authorized_layers / filter_actual_layers / featureinfo gate and LimitedLayer are not yet under contract; '
-             'opaque-callee assumption; the callback result is an opaque mapping'),
+             'result with it; WMS: authorized_layers hands out the permit-all marker only without a callback or for \'full\' and '
+             'lists a layer only if its permission for the requested feature is True; filter_actual_layers drops (or refuses) '
+             'every layer not listed and wraps a limited layer in LimitedLayer with THAT layer\'s limit; map and featureinfo '
+             'apply decision -> filter -> render in that order, map gives the merger the decision\'s coverage with the bbox and '
+             'size of the query that was rendered, featureinfo and LimitedLayer.get_info ask a layer only if the limit '
+             'contains (query.coord, query.srs); GeomCoverage tests the shape built from the coordinates transformed into its '
+             'own SRS.',
+        note='pixel clipping (image.mask, shapely, PIL) and the reprojection arithmetic of the limiting geometry are outside; '
+             'opaque-callee assumption; the callback result is an opaque mapping; capabilities filtering '
+             '(authorized_capability_layers, FilteredRootLayer) not yet under contract'),
     'C14': dict(
         text='Proof that the shortcut guards imply "shortcut = full composition" at the level of operation selection: the '
              'single-layer fast path of LayerMerger.merge is taken only for one layer of the requested size without clip, '
@@ -159,10 +182,14 @@ MANIFEST_META = {
              'client.retrieve(q, fmt) the format is in supported_formats and the SRS in supported_srs whenever those lists '
              'are configured, and the bbox either passed extent.contains or is the request clipped to the extent by '
              'bbox_position_in_image (whose clipping arithmetic is proved); no upstream request is made unless the '
-             'source\'s own coverage.intersects(query.bbox, query.srs) and res_range.contains(...) agreed.',
+             'source\'s own coverage.intersects(query.bbox, query.srs) and res_range.contains(...) agreed; '
+             'ResolutionRange.contains is exactly "x AND y resolution below min_res (+1e-6) and not below max_res"; '
+             '_get_transformed sends upstream the query built from best_srs and the transformed bbox (directly or clipped); '
+             'MapQuery.dimensions_for_params returns exactly the dimensions whose lower-cased name is a configured parameter '
+             '(proof + bounded twin).',
         note='SRS equality is treated as identity of opaque objects; URL assembly, reprojected bbox accuracy, '
-             '_get_transformed, best_srs/preferred_src, _query_req parameter filtering and TiledSource are not yet under '
-             'contract; opaque-callee assumption'),
+             'best_srs/preferred_src, WMSClient._query_req and TiledSource are not yet under contract; opaque-callee '
+             'assumption'),
     'C20': dict(
         text='Proof on the real code: Response.make_conditional answers 304 (no body, no Content-type) when If-None-Match '
              'equals the current ETag, and sets 304 ONLY if the ETag matches or Last-Modified <= a well-formed '
@@ -180,7 +207,9 @@ MANIFEST_META = {
              'rectangle when supports_access_with_origin offers it, origin_tile, and for every WMTS TileMatrix: identifier = '
              'level name, matrix size = grid size, ScaleDenominator <-> resolution, TopLeftCorner = north-west corner of the '
              'tile block; lemmas compose these to "client rectangle = served rectangle".',
-        note='the XML templates (TMS Origin/BoundingBox, WMS-C TileSet) and KML link generation are outside; the composition '
+        note='also under contract: wmts.meter_per_unit (degrees only for geographic SRS) and KMLServer._get_subtiles (the advertised '
+             'sub-tile rectangle is the full tile_bbox of the tile that is served); the XML templates (TMS Origin/BoundingBox, '
+             'WMS-C TileSet) and KML link generation are outside; the composition '
              'lemmas restate contract clauses by hand; floats as reals; known finding S9 (WMTS on sqrt2 grids)'),
     'C16': dict(
         text='Proof on the real code that requests are validated before they cost anything: limit_tile answers non-None '
